@@ -649,10 +649,34 @@ def r_flow_plain_agree(ctx, repo):
         raise AnalysisError('analyze_scalar: no flag forbids allow_flow_plain')
     S = RE.Scenario(repo, f)
     cfg = S.cfg
+    text = f.params[1]
     in_loop = {id(x) for x in ast.walk(loop)}
-    raising = [n for n in cfg.nodes if isinstance(n.ast, ast.Assign) and id(n.ast) in in_loop
-               and isinstance(n.ast.value, ast.Constant) and n.ast.value.value is True
-               and any(nm in flags for nm in RE.Flow.bound_names(n))]
+    in_prefix = {id(x) for s in body[:body.index(loop)] for x in ast.walk(s)}
+
+    def binds_flag(n):
+        return [nm for nm in RE.Flow.bound_names(n) if nm in flags] if n.ast is not None else []
+
+    def sets_true(n):
+        return isinstance(n.ast, ast.Assign) and isinstance(n.ast.value, ast.Constant) and n.ast.value.value is True
+    # a flag is raised for good by `flag = True` in the per-character loop or in the code in front of it, provided no later
+    # statement can bind the flag to anything else (the initialisation `flag = False` comes first)
+    def keeps(n):
+        """`flag = flag or ...` / `flag |= ...` never lowers a raised flag"""
+        a = n.ast
+        if isinstance(a, ast.AugAssign) and isinstance(a.op, ast.BitOr):
+            return True
+        return isinstance(a, ast.Assign) and len(a.targets) == 1 and isinstance(a.targets[0], ast.Name) \
+            and isinstance(a.value, ast.BoolOp) and isinstance(a.value.op, ast.Or) \
+            and any(isinstance(v, ast.Name) and v.id == a.targets[0].id for v in a.value.values)
+    kills = [n for n in cfg.nodes if binds_flag(n) and not sets_true(n) and not keeps(n)]
+    raising = []
+    for n in cfg.nodes:
+        if not (sets_true(n) and (id(n.ast) in in_loop or id(n.ast) in in_prefix) and binds_flag(n)):
+            continue
+        after = cfg.reach([m for (m, lab) in cfg.succ[n]])
+        if any(k in after and set(binds_flag(k)) & set(binds_flag(n)) for k in kills):
+            continue
+        raising.append(n)
     head = cfg.entry_of(loop) if isinstance(loop, ast.While) else None
     if isinstance(loop, ast.For):
         fn = [n for n in cfg.nodes if n.kind == 'for' and n.stmt is loop]
@@ -660,12 +684,60 @@ def r_flow_plain_agree(ctx, repo):
     body_entry = [m for n in cfg.nodes if n.stmt is loop and n.kind in ('test', 'for') for (m, lab) in cfg.succ[n] if lab is True]
     if head is None or not body_entry:
         raise AnalysisError('analyze_scalar: loop head not found')
+    # the position of the character: the variable that indexes the scalar where the character variable is bound
+    # (`ch = scalar[index]`, `for index, ch in enumerate(scalar)`); without one, the loop body cannot tell positions apart
+    ivars = {x.value.slice.id for x in ast.walk(loop) if isinstance(x, ast.Assign) and len(x.targets) == 1
+             and isinstance(x.targets[0], ast.Name) and x.targets[0].id in cvs and isinstance(x.value, ast.Subscript)
+             and isinstance(x.value.value, ast.Name) and x.value.value.id == text and isinstance(x.value.slice, ast.Name)}
+    if isinstance(loop, ast.For) and isinstance(loop.iter, ast.Call) and norm(loop.iter.func) == 'enumerate' \
+            and isinstance(loop.target, ast.Tuple) and len(loop.target.elts) == 2 and isinstance(loop.target.elts[0], ast.Name):
+        ivars.add(loop.target.elts[0].id)
+    ivar = sorted(ivars)[0] if len(ivars) == 1 else None
+    # locals that hold the first character (`first = scalar[0]` is their only binding)
+    firsts = set()
+    for nm in {b for n in cfg.nodes for b in RE.Flow.bound_names(n)} - set(cvs) - {ivar}:
+        defs = [n for n in cfg.nodes if nm in RE.Flow.bound_names(n)]
+        if defs and all(isinstance(n.ast, ast.Assign) and len(n.ast.targets) == 1 and isinstance(n.ast.value, ast.Subscript)
+                        and isinstance(n.ast.value.value, ast.Name) and n.ast.value.value.id == text
+                        and isinstance(n.ast.value.slice, ast.Constant) and n.ast.value.slice.value == 0 for n in defs):
+            firsts.add(nm)
+
+    def later_hook(e):
+        """a test that reads the position (and constants) only has, for every position after the first, the value it has
+        for each of a few sample positions - when they agree"""
+        if ivar is None or not any(isinstance(x, ast.Name) and x.id == ivar for x in ast.walk(e)):
+            return None
+        vals = {A.const_truth(e, {ivar: k}) for k in (1, 2, 3, 1000)}
+        return vals.pop() if len(vals) == 1 else None
+
+    def escapes(r):
+        return head in r or any(x in r for x in cfg.normal_exits())
     for c in flow_only:
-        r = S.reach(env={v: c for v in cvs}, blocked=raising, starts=body_entry, must_decide=cvs, what=' for %r' % c)
-        if head in r or any(x in r for x in cfg.normal_exits()):
+        env = {v: c for v in cvs}
+        where = []
+        if ivar is None:
+            # no position variable: one pass over the loop body stands for every position
+            if escapes(S.reach(env=env, blocked=raising, starts=body_entry, must_decide=cvs, what=' for %r' % c)):
+                where.append('at some position')
+        else:
+            # first position: the code in front of the loop sees the character as scalar[0]; when it can reach the loop without
+            # having raised a flag, the first pass through the loop body (position 0) has to
+            env0 = dict(env)
+            env0.update({nm: c for nm in firsts})
+            if head in S.reach(env=env0, table={'%s[0]' % text: c}, blocked=raising):
+                env0[ivar] = 0
+                if escapes(S.reach(env=env0, table={'%s[0]' % text: c}, blocked=raising, starts=body_entry, must_decide=cvs,
+                                   what=' for %r at position 0' % c)):
+                    where.append('as its first character')
+            # every later position: the loop body with the position variable > 0
+            if escapes(S.reach(env=env, blocked=raising, starts=body_entry, must_decide=cvs, hook=later_hook,
+                               what=' for %r after position 0' % c)):
+                where.append('after its first character')
+        if where:
             rule.fail('%s|flow-plain|%s' % (f.qualname, c), f.module.rel, loop.lineno, f.qualname, 'character %r' % c,
-                      'a scalar containing %r at some position (and nothing else special) is still allowed the plain style inside '
-                      'flow collections, but the scanner ends a plain scalar at %r there: [a%sb] does not read back' % (c, c, c))
+                      'a scalar containing %r %s (and nothing else special) is still allowed the plain style inside '
+                      'flow collections, but the scanner ends a plain scalar at %r there: [a%sb] does not read back'
+                      % (c, ' / '.join(where), c, c))
         else:
             rule.ok(f.loc(loop), '%r forbids the plain style in the flow context at every position' % c)
     return rule
@@ -2109,37 +2181,72 @@ def r_doc_indicator_scalars(ctx, repo):
 
 
 # ------------------------------------------------------------------------------------------ R-FOLD-SINGLE-SPACE
-def r_fold_single_space(ctx, repo):
+def _run_of_one_edge(test):
+    """the label of the edge of an atomic test on which two positions are known to be exactly one apart
+    (`start + 1 == end`, `end - start == 1`, `1 + start != end` -> its false edge ...), or None."""
     from .rules_reader import linear_form
+    if not (isinstance(test, ast.Compare) and len(test.ops) == 1 and isinstance(test.ops[0], (ast.Eq, ast.NotEq))):
+        return None
+    a, b = linear_form(test.left), linear_form(test.comparators[0])
+    if a is None or b is None:
+        return None
+    d = dict(a)
+    for kk, v in b.items():
+        d[kk] = d.get(kk, 0) - v
+    d = {kk: v for kk, v in d.items() if v != 0}
+    names = sorted(kk for kk in d if kk)
+    if len(names) == 2 and abs(d.get('', 0)) == 1 and sorted(d[n_] for n_ in names) == [-1, 1]:
+        return isinstance(test.ops[0], ast.Eq)
+    return None
+
+
+def _flag_on_edge(test, flag):
+    """the label of the edge of an atomic test that is taken only when the boolean parameter `flag` is on (the test reads
+    nothing else and its value differs between flag=False and flag=True), or None."""
+    if not any(isinstance(x, ast.Name) and x.id == flag for x in ast.walk(test)):
+        return None
+    off, on = A.const_truth(test, {flag: False}), A.const_truth(test, {flag: True})
+    if off is None or on is None or off == on:
+        return None
+    return on
+
+
+def r_fold_single_space(ctx, repo):
     rule = ctx.rule('R-FOLD-SINGLE-SPACE', 'write_plain and write_single_quoted replace a run of spaces by a line break only when the run is '
                                            'a single space (start + 1 == end): folding gives back exactly one space on load')
     for nm in ('write_plain', 'write_single_quoted'):
         f = _method(repo, 'emitter.Emitter', nm)
-        sn = f.params[0]
-        sites = [c for c in A.func_calls(f.node) if isinstance(c.func, ast.Attribute) and c.func.attr == 'write_indent'
-                 and any(any(isinstance(x, ast.Name) and x.id == 'split' for x in ast.walk(g.test)) for g, br in A.guarding_ifs(c, f.node))]
+        if len(f.params) < 3:
+            raise AnalysisError('%s: expected (self, text, split)' % nm)
+        sn, flag = f.params[0], f.params[2]
+        cfg = CFG(f.node)
+        # the edges on which line folding is allowed (the `split` parameter is on) / on which the run is one space long
+        split_edges, one_edges = [], []
+        for n in cfg.nodes:
+            if n.kind != 'test' or n.ast is None:
+                continue
+            lab = _flag_on_edge(n.ast, flag)
+            if lab is not None:
+                split_edges.append((n, lab))
+            lab = _run_of_one_edge(n.ast)
+            if lab is not None:
+                one_edges.append((n, lab))
+        # the folding sites: a write_indent() every path to which has found `split` on
+        sites = []
+        for n in cfg.nodes:
+            if n.ast is None or not any(isinstance(c, ast.Call) and isinstance(c.func, ast.Attribute) and c.func.attr == 'write_indent'
+                                        and norm(c.func.value) == sn for c in own_exprs(n)):
+                continue
+            if split_edges and cfg.guarded(n, edges=split_edges):
+                sites.append(n)
         if not sites:
             raise AnalysisError('%s: the folding site (write_indent under `split`) was not found' % nm)
-        for c in sites:
-            ok = False
-            for g, br in A.guarding_ifs(c, f.node):
-                if br != 'body':
-                    continue
-                for k in A.conjuncts(g.test):
-                    if isinstance(k, ast.Compare) and len(k.ops) == 1 and isinstance(k.ops[0], ast.Eq):
-                        a, b = linear_form(k.left), linear_form(k.comparators[0])
-                        if a is not None and b is not None:
-                            d = dict(a)
-                            for kk, v in b.items():
-                                d[kk] = d.get(kk, 0) - v
-                            d = {kk: v for kk, v in d.items() if v != 0}
-                            names = sorted(kk for kk in d if kk)
-                            if len(names) == 2 and abs(d.get('', 0)) == 1 and sorted(d[n_] for n_ in names) == [-1, 1]:
-                                ok = True
-            if ok:
-                rule.ok(f.loc(c), '%s folds single spaces only' % nm)
+        for n in sites:
+            # every path to the site has passed the edge of a test that says the run is exactly one position long
+            if one_edges and cfg.guarded(n, edges=one_edges):
+                rule.ok(f.loc(n.ast), '%s folds single spaces only' % nm)
             else:
-                rule.fail('%s|fold-run' % f.qualname, f.module.rel, c.lineno, f.qualname, A.anon_text(c, f.node, 40),
+                rule.fail('%s|fold-run' % f.qualname, f.module.rel, n.lineno, f.qualname, A.anon_text(n.ast, f.node, 40),
                           '%s folds at a run of spaces without testing that the run is one space long: a run of two or more spaces '
                           'beyond the width is replaced by one line break and loads back as a single space' % nm)
     return rule
